@@ -223,6 +223,7 @@ def run(ctx):
                               {'kind': 'graph', 'graph': it[1], 'seed': it[2]})
     illformed(ctx)
     loadpaths(ctx)
+    nested_loadpath(ctx)
     empty_packages(ctx)
     ctx.sample({'graph': {'exists': pick[0]['exists'], 'req': pick[0]['req']}, 'observed': res[0]['bound'], 'outcome': res[0]['outcome']})
 
@@ -309,6 +310,43 @@ def loadpaths(ctx):
             ctx.violation('loadpath/%s/%s' % (vv[0], 'multi-q' if any(p_.count('?') > 1 for p_ in lp.split(';')) else 'single-q'),
                           'build with load path %r (given by %s) requiring %s (package files present for %s): %s; outcome %s (%s), bound %s' % (lp, '--lua-path' if via == 'option' else 'PICO8_LUA_PATH', list(names), list(present), vv[0], rec['outcome'], rc, rec['bound']),
                           {'kind': 'loadpath', 'lua_path': lp, 'names': list(names)})
+
+
+def nested_loadpath(ctx):
+    """a package found through the load path requires another package that is found through the load path only"""
+    from pico8 import tool
+    from pico8.game import file as gfile
+    S = tempfile.mkdtemp(prefix='c14n_', dir=ctx.tmp)
+    for n, body in (('phys', b'local v = require("vec")\nid_pkg = "libs/phys/phys.lua"\nreturn {}\n'), ('vec', b'id_pkg = "libs/vec/vec.lua"\nreturn {}\n')):
+        os.makedirs(os.path.join(S, 'libs', n))
+        open(os.path.join(S, 'libs', n, n + '.lua'), 'wb').write(body)
+    os.makedirs(os.path.join(S, 'src'))
+    open(os.path.join(S, 'src', 'main.lua'), 'wb').write(b'local p = require("phys")\n')
+    out = os.path.join(S, 'out.p8')
+    lp = os.path.join(S, 'libs', '?', '?.lua')
+    try:
+        rc = tool.main(['--quiet', 'build', out, '--lua', os.path.join(S, 'src', 'main.lua'), '--lua-path', lp])
+    except SystemExit as e:
+        rc = e.code
+    except Exception as e:  # noqa
+        rc = 'exception %s' % type(e).__name__
+    rec = {'patterns': [['libs/', '/', '.lua']], 'exists': ['libs/phys/phys.lua', 'libs/vec/vec.lua'], 'reqs': ['phys', 'vec'], 'outcome': 'error', 'bound': []}
+    if rc in (0, None) and os.path.exists(out):
+        rec['outcome'] = 'ok'
+        code = b''.join(gfile.from_file(out).lua.to_lines())
+        heads = list(re.finditer(rb'package\._c\["([^"]*)"\]=function\(\)\n', code))
+        for i, h in enumerate(heads):
+            end = heads[i + 1].start() if i + 1 < len(heads) else len(code)
+            m = re.search(rb'id_pkg = "([^"]*)"', code[h.end():end])
+            rec['bound'].append([h.group(1).decode(), m.group(1).decode() if m else '?'])
+    shutil.rmtree(S, ignore_errors=True)
+    v = ctx.validate('TraceLoadPath', [rec])
+    ctx.evaluations += 1
+    if v[0][0] == 'ok':
+        ctx.nontrivial += 1
+    else:
+        ctx.violation('loadpath-nested/%s' % v[0][0], 'main requires "phys" (found through --lua-path), phys requires "vec" (found through the same load path only): %s; outcome %s (%s), bound %s' % (
+            v[0][0], rec['outcome'], rc, rec['bound']), {'kind': 'loadpath-nested'})
 
 
 def empty_packages(ctx):
